@@ -477,6 +477,82 @@ def check(idx: Index, rep: Report, tier: str) -> str:
         else:
             raise AnalysisError(f"{pb.fq}: `{unparse(n)[:70]}` under 'next operator binds tighter' not understood")
 
+    # ---- R7 composition: the inner map's expressions live in the combined symbol space
+    r7 = rep.rule("C26.R7", "AffineMap.compose renumbers the symbols of the inner map behind those of the outer map (s_i -> s_{i + self.num_symbols}) before any of its result expressions enters the composed map", floor=1)
+    from ..astutil import parent_map as _pm7, text_facts as _tf7, norm_facts as _nf7
+
+    cm = idx.func("xdsl/ir/affine/affine_map.py", "AffineMap.compose")
+    inner = cm.node.args.args[1].arg
+    ccfg = CFG(cm.node)
+    rets = [n for n in walk_local(cm.node) if isinstance(n, ast.Return) and n.value is not None]
+    if not rets:
+        raise AnalysisError(f"{cm.fq}: no return found")
+    for rt in rets:
+        inst = f"{cm.fq}:return@{rt.lineno - cm.node.lineno}"
+        txt = resolved_text(ccfg, rt.value, ccfg.node_of(rt))
+        try:
+            tree = ast.parse(txt, mode="eval")
+        except SyntaxError:
+            raise AnalysisError(f"{cm.fq}: returned expression not understood: {txt[:80]}")
+        # locals read inside a comprehension are not reached by resolved_text: substitute single-definition locals
+        for _round in range(4):
+            changed = False
+            for x in list(ast.walk(tree)):
+                if isinstance(x, ast.Name) and isinstance(x.ctx, ast.Load):
+                    defs = [a_ for a_ in walk_local(cm.node) if isinstance(a_, ast.Assign) and len(a_.targets) == 1 and isinstance(a_.targets[0], ast.Name) and a_.targets[0].id == x.id]
+                    if len(defs) == 1:
+                        sub = ast.parse(resolved_text(ccfg, defs[0].value, ccfg.node_of(defs[0])), mode="eval").body
+                        for par_ in ast.walk(tree):
+                            for fld, val in ast.iter_fields(par_):
+                                if val is x:
+                                    setattr(par_, fld, sub); changed = True
+                                elif isinstance(val, list) and any(v_ is x for v_ in val):
+                                    val[:] = [sub if v_ is x else v_ for v_ in val]; changed = True
+            if not changed:
+                break
+        txt = unparse(tree)
+        pm = _pm7(tree)
+        raw_uses, shifted = [], []
+        for x in ast.walk(tree):
+            if isinstance(x, ast.Attribute) and x.attr == "results" and unparse(x.value) == inner:
+                up, q = [], x
+                while id(q) in pm:
+                    q = pm[id(q)]
+                    up.append(q)
+                if up and isinstance(up[0], ast.Call) and unparse(up[0].func) == "len":
+                    continue
+                raw_uses.append(x)
+            if isinstance(x, ast.Call) and call_attr(x) == "replace_dims_and_symbols" and isinstance(x.func, ast.Attribute) and re.search(rf"\b{re.escape(inner)}\b", unparse(x.func.value)):
+                shifted.append(x)
+        raw_uses = [u for u in raw_uses if not any(any(u is y for y in ast.walk(c_)) for c_ in shifted)]
+        if raw_uses:
+            facts = _nf7(_tf7(cm.node, rt))
+            if any("num_symbols" in t_ for t_, _p in facts):
+                raise AnalysisError(f"{cm.fq}: a return that uses `{inner}.results` directly is guarded by a test on num_symbols; not decided")
+            r7.fail(inst, Finding("C26.R7", cm.fq, "inner-symbols-not-shifted", f"`{unparse(rt)[:80]}` puts result expressions of `{inner}` into the composed map as they are (`{txt[:90]}`): the composed map lists the symbols of `self` first, so `s0` of `{inner}` must become `s{{self.num_symbols}}`; with an outer map that has symbols the inner symbols now name the outer ones", f"{cm.module.relpath}:{rt.lineno}"))
+            continue
+        if not shifted:
+            raise AnalysisError(f"{cm.fq}: `{unparse(rt)[:70]}` does not go through replace_dims_and_symbols and does not use `{inner}.results`; not understood")
+        bad = None
+        for c_ in shifted:
+            if len(c_.args) < 2:
+                raise AnalysisError(f"{cm.fq}: replace_dims_and_symbols call shape not understood")
+            rngs = [y for y in ast.walk(c_.args[1]) if isinstance(y, ast.Call) and unparse(y.func) == "range"]
+            if len(rngs) != 1:
+                raise AnalysisError(f"{cm.fq}: the new symbols `{unparse(c_.args[1])[:70]}` are not built from one range")
+            ra = rngs[0].args
+            lo = unparse(ra[0]) if len(ra) >= 2 else "0"
+            hi = unparse(ra[1]) if len(ra) >= 2 else unparse(ra[0])
+            hi_terms = sorted(t_.strip() for t_ in hi.split("+"))
+            if lo != "self.num_symbols":
+                bad = f"range starts at `{lo}`"
+            elif hi_terms != sorted(["self.num_symbols", f"{inner}.num_symbols"]):
+                bad = f"range ends at `{hi}`"
+        if bad:
+            r7.fail(inst, Finding("C26.R7", cm.fq, "symbol-shift-wrong", f"the symbols of `{inner}` are renumbered with a {bad}; they must become s[self.num_symbols] .. s[self.num_symbols + {inner}.num_symbols - 1]", f"{cm.module.relpath}:{rt.lineno}"))
+        else:
+            r7.ok(inst, f"{cm.module.relpath}:{rt.lineno} inner expressions pass through replace_dims_and_symbols with symbols shifted by self.num_symbols")
+
     return (
         "Table agreement between the six dispatchers over AffineBinaryOpKind (binary, eval, constant folding, token "
         "printing and the affine parser, operator constructors, the flattener), reflected-operator rule, and two structural "
